@@ -278,7 +278,34 @@ impl KeyValueStore {
             state.imm = None;
             state.imm_trigger = imm_trigger;
             self.cnd_memtable_rolled_over.notify_all();
+            #[cfg(blue_verif)]
+            if crate::verif::single_step() {
+                return Ok(());
+            }
         }
+    }
+
+    /// Request a rollover and run the memtable thread's loop for exactly one flush.
+    #[cfg(blue_verif)]
+    pub fn verif_flush_once(&self) -> Result<(), SError> {
+        drop(self.rollover_memtable(self.state.lock().unwrap()));
+        crate::verif::set_single_step(true);
+        let ret = self.memtable_thread();
+        crate::verif::set_single_step(false);
+        ret
+    }
+
+    /// The tree under this store.
+    #[cfg(blue_verif)]
+    pub fn verif_tree(&self) -> &LsmTree {
+        &self.tree
+    }
+
+    /// (seq_no, mem_seq_no, imm_trigger) of the store state.
+    #[cfg(blue_verif)]
+    pub fn verif_seq(&self) -> (u64, u64, u64) {
+        let state = self.state.lock().unwrap();
+        (state.seq_no, state.mem_seq_no, state.imm_trigger)
     }
 
     fn start_new_log(
